@@ -18,7 +18,7 @@ func init() {
 		ID:    "C17",
 		Level: "exploration",
 		Rule: "cases: a base world (NetworkPolicy / ANP+BANP / Ingress+Route families, all workloads Deployments) re-expressed three times with every workload drawn anew from {Deployment, ReplicaSet, StatefulSet, DaemonSet, Job, CronJob, ReplicationController, bare Pod, 1-3 Pods sharing one controller ownerReference} x replicas {absent,0,1,2,3}; " +
-			"the reports must be point-wise equal after erasing the [Kind] suffix, the number of workload peers must equal the number of workloads, no peer may connect to itself; every tenth case is a name-collision world (same namespace/name under two kinds, or a bare Pod named like a generated replica) where each workload must still be its own peer; " +
+			"the reports must be point-wise equal after erasing the [Kind] suffix, the number of workload peers must equal the number of workloads, no peer may connect to itself; every tenth case is a name-collision world (same namespace/name under two controller kinds, a bare Pod named like a generated replica, a bare Pod named exactly like a controller workload, the same name in two namespaces) where each workload must still be its own peer; " +
 			"non-trivial = the base report has a partial or missing connection and at least one workload changed kind; distinct = world hash + chosen expressions",
 		Assumptions:       []string{"a workload's identity is (namespace, name, kind); pod template labels and container ports are copied verbatim into every expression"},
 		NumCases:          func(tier string, _ int64) int { return tierN(tier, 700, 25000) },
@@ -203,7 +203,13 @@ func runC17Collision(c *run.Ctx, g *rng.R, cfg world.Cfg) {
 	twin := *wl
 	twin.Labels = map[string]string{"app": "twin"}
 	pattern := ""
-	switch g.Intn(3) {
+	switch g.Intn(4) {
+	case 3:
+		// a bare Pod named exactly like a controller workload of its namespace: their pods (web, web-1) do NOT share a name, and
+		// namespace/name[kind] tells the two workloads apart - both must be reported
+		wl.Kind = rng.Pick(g, []string{world.KDeployment, world.KStatefulSet, world.KDaemonSet, world.KReplicaSet, world.KJob})
+		twin.Kind = world.KPod
+		pattern = "pod-named-like-controller"
 	case 0:
 		twin.Kind = rng.Pick(g, []string{world.KStatefulSet, world.KDaemonSet, world.KReplicaSet, world.KJob})
 		pattern = "same-name-two-kinds"
